@@ -1,6 +1,6 @@
 PID = "C15"
 WORKER = "w_c15"
-HEADER = "From Coq Require Import List ZArith QArith Qcanon.\nFrom Dimod Require Import Base.Util Model.Poly Model.HPoly Model.Reduce Model.ChkC15.\nImport ListNotations."
+HEADER = "From Coq Require Import List ZArith QArith Qcanon.\nFrom Dimod Require Import Base.Util Model.Poly Model.HPoly Model.HPolyPy Model.PolyCtor Model.Reduce Model.ChkC15.\nImport ListNotations."
 CHECK_FN = "check"
 N_QUICK = 1600
 N_THOROUGH = 30000
@@ -11,9 +11,16 @@ RULE = ("random polynomials (2-6 variables quick / 2-8 thorough, degree <= 5 / 6
         "invented names 'u*v' / 'auxu,v' incl. namesakes of the pairs of a higher-order term that occur only in low-order terms), both vartypes, strengths {1/2,1,2,3}; kinds: reduce_binary_polynomial, make_quadratic (dict and "
         "BinaryPolynomial input; bqm= unset / same vartype with or without vartype= / other vartype, with linear biases, offset and couplings on "
         "the polynomial's pairs and on extra variables), make_quadratic_cqm (cqm= unset / holding an objective), HigherOrderComposite(ExactSolver or a child returning float32 / integer energies) sample_poly/sample_hising/sample_hubo with "
-        "keep_penalty_variables / discard_unsatisfied in {unset, True, False}; non-trivial = at least one product constraint; "
+        "keep_penalty_variables / discard_unsatisfied in {unset, True, False}; "
+        "the polynomial of every kind is built (38%) through from_hubo / from_hising with an offset on top of a constant already among the terms, "
+        "through BinaryPolynomial(iterable) with repeated / reordered entries, or through copy(); kind ctor: the constructors and exporters on their own "
+        "(dict / iterable with tuple, list, frozenset keys and exact duplicates / polynomial / copy / to_spin().to_binary(); from_hubo and from_hising with offset "
+        "absent, None, 0, value; () keys, cancelling keys, single-variable keys in J; to_hubo / to_hising of both vartypes), items compared with Model/PolyCtor.v, "
+        "energies with the given terms on all (<= 4 variables) or 12 assignments; non-trivial = at least one product constraint / one term; "
         "distinct by canonical JSON of the case")
-TRUSTED = ["model: coq/theories/Model/Reduce.v, HPoly.v, Poly.v, ChkC15.v (hand written, tied by this correspondence)",
+TRUSTED = ["model: coq/theories/Model/Reduce.v, HPoly.v, Poly.v, PolyCtor.v, HPolyPy.v, ChkC15.v (hand written, tied by this correspondence)",
+           "translators/poly_ctors.py (fail-closed ast translator: the expression from_hubo stores under (), the parts from_hising assembles, the parity "
+           "vartype of __init__, the defaults of to_hubo / to_hising -> Gen/Gen_PolyCtor.v; statement shapes of the other constructor methods are locked)",
            "translators/spin_product.py and translators/gates_tables.py (fail-closed ast translators): the product penalties of the theorems are proved equal to the tables they emit from _spin_product / and_gate on every run",
            "HigherOrderComposite rows: Coq re-evaluates the polynomial on a seeded sample of <= 48 rows per case; every row's energy and "
            "the multiplicity of each original assignment are decided in the worker with exact Fractions (Python)",
